@@ -8,6 +8,8 @@ REPO = os.environ.get('RV_REPO') or os.environ.get('VP_RUN_REPO') or '/repo'
 if os.environ.get('VP_RUN_REPO'):
     os.environ['RV_REPO'] = os.environ['VP_RUN_REPO']
 ALL = ['C%02d' % i for i in range(1, 19)]
+os.environ['RV_EVIDENCE_DIR'] = '/tmp/rv-matrix-evidence'
+os.makedirs('/tmp/rv-matrix-evidence', exist_ok=True)
 tier = sys.argv[1]
 sel = {}
 for a in sys.argv[2:]:
